@@ -7,6 +7,7 @@ package c06
 //	(b) retry delay bounds for every compile-accepted retry config of a DSL grid x attempt x jitter draw,
 //	(c) every target behaviour sequence up to retry.max+2 answers (single/multi target, concurrency, DLQ requeue),
 //	(d) Drain requested while deliveries of a dequeue micro-batch are in flight.
+//	(i) answers that carry a scheduling hint header, (j) the wired store in use across retention passes (hint_retain_test.go).
 //
 // The oracle (judge) is written from the property statement only; it never
 // calls classifyDelivery/shouldRetry/isSuccess/retryDelay.
@@ -152,6 +153,9 @@ func judge(sp Spec, res Result) ([]Finding, judgeStats) {
 	if !res.DrainOK {
 		add("drain:timeout", "dispatcher did not drain within 10 virtual minutes")
 	}
+	for _, id := range res.IdleLeased {
+		add("terminal:handed-out-again-after-settlement", "message %s was handed to an idle worker poll after every message of the history had been delivered or dead-lettered", id)
+	}
 	if res.OtherOpen != 0 {
 		add("terminal:not-reached:other-traffic", "%d of the %d other messages that went through the same store were neither delivered nor dead-lettered", res.OtherOpen, res.OtherSent)
 	}
@@ -202,7 +206,13 @@ func judge(sp Spec, res Result) ([]Finding, judgeStats) {
 					js.chainMaxReqs = len(s.Wire)
 				}
 			}
-			if slow :=time.Duration(s.Beh.SlowMS) * time.Millisecond; slow > rc.Timeout {
+			hinted := ""
+			if n := s.Beh.hdrName(); n != "" {
+				// part i: nothing in the statement lets the answer's headers change the class or the schedule
+				in += "+" + n
+				hinted = ":answer-carries-" + n
+			}
+			if slow := time.Duration(s.Beh.SlowMS) * time.Millisecond; slow > rc.Timeout {
 				// no answer within the target's own timeout: a timeout, whatever would have arrived later
 				cls, in = "retryable", in+"~later-than-timeout"
 			}
@@ -320,15 +330,15 @@ func judge(sp Spec, res Result) ([]Finding, judgeStats) {
 					}
 				}
 				if s.Delay < lo-tol {
-					add("delay:below-lower-bound", "%s; retry delay %s < lower bound %s (window [%s,%s], u=%v)", ctx, s.Delay, lo, lo, hi, sp.U)
+					add("delay:below-lower-bound"+hinted, "%s; retry delay %s < lower bound %s (window [%s,%s], u=%v)", ctx, s.Delay, lo, lo, hi, sp.U)
 				}
 				if s.Delay > hi+tol {
-					add("delay:above-upper-bound", "%s; retry delay %s > upper bound %s (window [%s,%s], u=%v)", ctx, s.Delay, hi, lo, hi, sp.U)
+					add("delay:above-upper-bound"+hinted, "%s; retry delay %s > upper bound %s (window [%s,%s], u=%v)", ctx, s.Delay, hi, lo, hi, sp.U)
 				}
 				if i+1 < len(sends) {
 					gap := sends[i+1].Start.Sub(s.End)
 					if gap < lo-tol {
-						add("retry:sent-before-lower-bound", "%s; next send %s after the failure, lower bound %s", ctx, gap, lo)
+						add("retry:sent-before-lower-bound"+hinted, "%s; next send %s after the failure, lower bound %s", ctx, gap, lo)
 					}
 				}
 			}
@@ -346,8 +356,16 @@ func judge(sp Spec, res Result) ([]Finding, judgeStats) {
 		}
 		// stored attempt log: one row per send
 		rows := res.Rows[m.ID]
+		later, laterMsg := "", ""
+		if res.IdleDone > 0 {
+			// part j: read after the store stayed in use for a while (less than any written or documented max_age)
+			later = ":after-retention-passes"
+			laterMsg = fmt.Sprintf(" (read %d x %ds after the settlement; store %s, retention blocks %q: prune_interval %s, smallest max_age %s)",
+				res.IdleDone, sp.IdleStepS, sp.Store, sp.Retain, retainBlocks[sp.Retain].interval, retainBlocks[sp.Retain].minAge)
+			js.distinct = append(js.distinct, fmt.Sprintf("%s:%s:retain=%s:sends=%d:log-rows-after-idle=%d", sp.Part, sp.Store, sp.Retain, len(sends), len(rows)))
+		}
 		if len(rows) != len(sends) {
-			add("attempt-log:count", "message %s: %d sends but %d rows in the attempt log", m.ID, len(sends), len(rows))
+			add("attempt-log:count"+later, "message %s: %d sends but %d rows in the attempt log%s", m.ID, len(sends), len(rows), laterMsg)
 		} else {
 			var a, b []string
 			unsettled := false
@@ -362,7 +380,7 @@ func judge(sp Spec, res Result) ([]Finding, judgeStats) {
 			sort.Strings(a)
 			sort.Strings(b)
 			if !unsettled && strings.Join(a, ",") != strings.Join(b, ",") {
-				add("attempt-log:content", "message %s: settlements %v but attempt log %v", m.ID, a, b)
+				add("attempt-log:content"+later, "message %s: settlements %v but attempt log %v%s", m.ID, a, b, laterMsg)
 			}
 		}
 		// terminal state
@@ -988,7 +1006,7 @@ func TestCheck(t *testing.T) {
 	for _, part := range []struct {
 		name string
 		f    func()
-	}{{"a", c.partA}, {"b", c.partB}, {"h", c.partH}, {"g", c.partG}, {"f", c.partF}, {"c", c.partC}, {"d", c.partD}, {"e", c.partWire}} {
+	}{{"a", c.partA}, {"b", c.partB}, {"i", c.partI}, {"j", c.partJ}, {"h", c.partH}, {"g", c.partG}, {"f", c.partF}, {"c", c.partC}, {"d", c.partD}, {"e", c.partWire}} {
 		if only := os.Getenv("VERIF_C06_ONLY"); only != "" && !strings.Contains(","+only+",", ","+part.name+",") {
 			r.NotExhaustive("VERIF_C06_ONLY=" + only + ": part " + part.name + " skipped (development aid)")
 			continue
@@ -1016,7 +1034,9 @@ func TestCheck(t *testing.T) {
 		"(h) redirects below the real HTTPDeliverer + real http.Client (in-memory network of several hosts, table resolver, egress policy compiled from written text): 10 egress policies {no rule, deny host, deny *.domain, deny cidr, allow hosts, allow cidr, https_only, dns_rebind_protection, nothing written = documented defaults, allow+deny mixed} x redirects {on, off; not written for two} x retry.max x attempt 1..max+2 x every redirect chain of the alphabet "+
 		"{direct answer; 301/302/303/307/308 to an allowed place that answers 2xx/5xx/4xx/reset (thorough: 10 answers), to the same host (relative Location), to a place each kind of rule of the policy refuses, without / with an unusable Location, a second hop allowed->refused and allowed->allowed->answer, a loop; 300/304/305/399 with a Location}, "+
 		"plus every sequence of retry.max+2 attempts (+1 with a DLQ requeue) over a 7-10 chain alphabet for deny-host / defaults (thorough: + rebind, more store variants); "+
-		"distinct_nontrivial counts (part, input class, attempt<=max?, observed settlement), (part, jitter, capped?, position in the delay window) and (part, store, sends, terminal state) classes")
+		"(i) answers that carry a scheduling hint, over the real HTTPDeliverer: status {200, 302, 404, 408, 429, 500, 502, 503, 504} x header line {none; Retry-After 0 / 1 / 30 / 3600 / negative / not a number / an HTTP date in the past / in 1h / in 2100; RateLimit-Reset, X-RateLimit-Reset, X-RateLimit-Reset-After 0 and 3600} x 2 retry configs x both jitter extremes, the same answer until the message is terminal (every attempt 1..max+1 judged), plus every answer sequence of length retry.max+2 over a 6-answer alphabet with and without hints; "+
+			"(j) all distinct histories of (c) (+ one DLQ requeue cycle) on the store the production wiring opens from the text (queue backend memory / sqlite) x written retention blocks {none = documented defaults, short intervals, delivered_retention on, retention off}, the store staying in use for 3 (thorough 5) x (prune_interval + 1s) of virtual time after the settlement - less than any max_age - before the attempt log and the final state are read; "+
+			"distinct_nontrivial counts (part, input class, attempt<=max?, observed settlement), (part, jitter, capped?, position in the delay window) and (part, store, sends, terminal state) classes")
 	r.Assume("lease mutations on the store succeed (statement) and leases do not expire during a delivery (lease TTL >= 30s, target timeout 1s); a history with a failed lease mutation is counted and not judged; a store whose batch extension fails is covered because the per-action fallback succeeds")
 	r.Assume("the delivery target is an in-memory Deliverer (part a, b) or the real HTTPDeliverer with the compiled egress policy over an in-memory RoundTripper (parts a, c, d); no sockets, DNS or TLS; policy denials in parts c/d come from the real egress check (deny rule)")
 	r.Assume("retry delays are compared with a 2ns tolerance for float64 rounding and truncation to whole nanoseconds")
@@ -1026,6 +1046,8 @@ func TestCheck(t *testing.T) {
 	r.Assume("part (g): an answer that arrives later than the target's own timeout counts as a timeout (retryable) whatever its status; answer delays {300ms, 1s, 5s} never coincide with a timeout of the grid")
 	r.Assume("part (h): which places a policy refuses is written by hand next to the rule (redirPolicy.Refused), never computed from the policy; under redirects on a 301/302/303/307/308 whose Location the policy refuses must end dead policy_denied by that attempt (statement + docs: every hop is checked like the target) and the refused place is never requested; " +
 		"a 3xx that is not followed (redirects off, no/unusable Location, a status that is no redirect instruction, a loop cut off by the client) is judged as the statement judges a 3xx: never success, retried only while attempt <= retry.max, dead only with a reason - whether an ALLOWED hop is followed at all, with which method and body, and where a loop is cut (observed: 10 requests) is not C06's business; no TLS: https places exist only as URLs of the in-memory network")
+	r.Assume("part (i): one extra header line per answer (Retry-After in both syntaxes, three rate-limit reset headers), in-memory transport only; hints in the answer body or through the real-socket part (e) are not enumerated; HTTP dates are relative to the bubble's virtual clock (2000-01-01T00:00:00Z)")
+	r.Assume("part (j): prune_interval and the smallest max_age of the oracle are read from the written retention blocks, else the documented defaults (7d / 5m, dlq 30d / 10000, delivered off); the idle phase (3 or 5 steps of prune_interval+1s, less than half of any max_age) starts after Drain and consists of an idle worker poll, a DLQ listing and a backlog listing per step; what may disappear once a max_age has passed is not judged here")
 	r.Assume("part (f): the other traffic is not judged message by message, only that all of it ends delivered or dead-lettered; whether the store's internal thresholds were actually crossed is not observable from outside (the sizes are chosen above the memory store's 1024-entry order-list compaction threshold); with two workers the interleaving of judged and other messages is the Go scheduler's")
 	r.Finish()
 }
